@@ -57,6 +57,9 @@ pub struct Store {
     transaction: CurrentTransaction,
     open_replicas: HashSet<NamespaceId>,
     pubkeys: MemPublicKeyStore,
+    /// While non-zero, the age-based commit in [`Store::tables`] / [`Store::modify`] is held
+    /// back, so that the store accesses of one logical operation stay in one transaction.
+    hold_age_commit: usize,
 }
 
 impl Drop for Store {
@@ -169,6 +172,7 @@ impl Store {
             transaction: Default::default(),
             open_replicas: Default::default(),
             pubkeys: Default::default(),
+            hold_age_commit: 0,
         })
     }
 
@@ -252,7 +256,7 @@ impl Store {
                 TransactionAndTables::new(tx)?
             }
             CurrentTransaction::Write(w) => {
-                if w.since.elapsed() > MAX_COMMIT_DELAY {
+                if self.hold_age_commit == 0 && w.since.elapsed() > MAX_COMMIT_DELAY {
                     tracing::debug!("committing transaction because it's too old");
                     w.commit()?;
                     let tx = self.db.begin_write()?;
@@ -300,7 +304,7 @@ impl Store {
                 TransactionAndTables::new(tx)?
             }
             CurrentTransaction::Write(w) => {
-                if w.since.elapsed() > MAX_COMMIT_DELAY {
+                if self.hold_age_commit == 0 && w.since.elapsed() > MAX_COMMIT_DELAY {
                     tracing::debug!("committing transaction because it's too old");
                     w.commit()?;
                     let tx = self.db.begin_write()?;
@@ -851,6 +855,16 @@ impl<'a> crate::ranger::Store<SignedEntry> for StoreInstance<'a> {
             }
             Ok(())
         })
+    }
+
+    /// Admission test, pruning of superseded entries and the write are separate store accesses.
+    /// They must be committed together: if the age-based commit fired between them, a crash
+    /// would expose a state in which entries are pruned but the entry replacing them is missing.
+    fn put(&mut self, entry: SignedEntry) -> Result<crate::ranger::InsertOutcome> {
+        self.store.hold_age_commit += 1;
+        let res = crate::ranger::put_with_prefix_deletion(self, entry);
+        self.store.hold_age_commit -= 1;
+        res
     }
 
     fn get_range(&mut self, range: Range<RecordIdentifier>) -> Result<Self::RangeIterator<'_>> {
